@@ -434,8 +434,8 @@ def check_scenario(scn, lines):
     defs = scn["defs"]
     prev_queue = []
     name = scn["name"]
-    detached_at = {}
-    for ln in lines:
+    per_line = {}
+    for li, ln in enumerate(lines):
         i = ln["i"]
         if i == -2:
             break
@@ -449,8 +449,9 @@ def check_scenario(scn, lines):
             break
         stats["steps"] += 1
         act = ln["act"]
+        done_before = list(truth.done)
         # completed imports: the queue lost a prefix
-        if len(st["queue"]) < len(prev_queue) or (act[0] in ("step", "stepkind", "settle")):
+        if len(st["queue"]) < len(prev_queue) or (act[0] in ("step", "stepkind", "settle", "substep")):
             # files that left the queue are completed (queue only shrinks at import completion)
             q, pq = st["queue"], prev_queue
             k = 0
@@ -497,6 +498,7 @@ def check_scenario(scn, lines):
         if set(streams) != set(range(st["next"])):
             F.append(Finding("GT", "ids-not-dense", name, i, sorted(streams)))
             break
+        per_line[li] = (streams, done_before, list(truth.done))
         tsets, asts = tag_truth_sets(st, defs, streams)
         # ---- C06: decided => matches == truth
         for tn, t in st["tags"].items():
@@ -570,6 +572,7 @@ def check_scenario(scn, lines):
                     miss = sorted(sid for sid in need if str(sid) not in st["cache"].get(c, {}))
                     if miss:
                         F.append(Finding("C16", "missing-output-at-quiescence", name, i, {"conv": c, "streams": miss, "tags": tns}))
+    check_scenario.per_line = per_line
     return F, stats
 
 
@@ -578,6 +581,235 @@ def completion_budget(scn, st):
     imports + per import a re-tag of every tag at every reference depth + converter runs + merges"""
     nt = len(st["tags"]) + 1
     return 4 + len(scn["files"]) * 2 + 3 * nt * (nt + 1) + 4 * (len(scn["converters"]) + 1) * nt + 2 * (st["nidx"] + len(scn["files"]))
+
+
+# ---------------------------------------------------------------------------- model replay
+KF_IDS = ["lost-inherited-invalidation", "idonly-added-streams", "reset-not-invalidated", "inflight-update",
+          "merge-not-restarted-after-convert", "stale-view-store"]
+F_ID, F_PROTO, F_PORT, F_HOST, F_TABS, F_TREL, F_TAGS, F_DATA = 1, 2, 4, 8, 16, 32, 64, 128
+
+
+def features(d):
+    """(main, sub, maintags, subtags) of an AST, after Features() in conditions.go"""
+    k = d[0]
+    if k == "id":
+        return F_ID, 0, set(), set()
+    if k in ("cport", "sport"):
+        return F_PORT, 0, set(), set()
+    if k == "chost":
+        return F_HOST, 0, set(), set()
+    if k in ("cdata", "sdata", "data"):
+        return F_DATA, 0, set(), set()
+    if k == "ltime":
+        return F_TABS, 0, set(), set()
+    if k == "ref":
+        return F_TAGS, 0, {d[1]}, set()
+    if k == "sub":
+        return F_PORT, F_PORT | F_TAGS, set(), {d[1]}
+    if k == "not":
+        return features(d[1])
+    a, b = features(d[1]), features(d[2])
+    return a[0] | b[0], a[1] | b[1], a[2] | b[2], a[3] | b[3]
+
+
+def rank(name):
+    return TAGNAMES.index(name)
+
+
+def bits(l):
+    v = 0
+    for x in l:
+        v |= 1 << int(x)
+    return v
+
+
+class Registry:
+    def __init__(self):
+        self.ids = {}
+
+    def get(self, s):
+        if s not in self.ids:
+            self.ids[s] = len(self.ids) + 1
+        return self.ids[s]
+
+
+def defspec(reg, defstr, mf, sf, mt, st, mark):
+    idonly = (mf & ~F_ID) == 0 and sf == 0
+    return "%d:%d:%d:%d:%d:%s:%s:%d" % (reg.get(defstr), int(idonly), int(sf != 0), int((mf & (F_DATA | F_TABS | F_TREL)) != 0),
+                                        int(((mf | sf) & F_DATA) != 0), ";".join(str(rank(t)) for t in sorted(mt, key=rank)),
+                                        ";".join(str(rank(t)) for t in sorted(st, key=rank)), int(mark))
+
+
+def proj_from_dump(st, streams, reg, scn):
+    convs = sorted(scn["converters"])
+    tg = []
+    for tn in sorted(st["tags"], key=rank):
+        t = st["tags"][tn]
+        m, u = bits(t["m"]), bits(t["u"])
+        tg.append("%d:%d:%d:%d:%d" % (rank(tn), reg.get(t["def"]), m & ~u, u, bits(convs.index(c) for c in t["conv"])))
+    ph = {"import": "0", "tag": "0", "convert": "0", "merge": "0"}
+    for j in st["jobs"]:
+        k, p = j.split(":")
+        ph[k] = {"0": "1", "2": "2"}.get(p, "?")
+    tc = ";".join("%d:%d" % (i, bits(st["toconv"].get(c, []))) for i, c in enumerate(convs))
+    ca = []
+    for i, c in enumerate(convs):
+        cur = stale = 0
+        for sid_s, out in st["cache"].get(c, {}).items():
+            sid = int(sid_s)
+            if sid in streams and out == conv_expected(c, streams[sid]):
+                cur |= 1 << sid
+            else:
+                stale |= 1 << sid
+        ca.append("%d:%d:%d" % (i, cur, stale))
+    return "next=%d|tags=%s|j=%s%s%s%s|q=%s|tc=%s|ca=%s|ix=%s|me=%s" % (
+        st["next"], ";".join(tg), ph["tag"], ph["convert"], ph["merge"], ph["import"], ",".join(map(str, st["queue"])), tc,
+        ";".join(ca), ",".join(map(str, st["idxcnt"])), "1" if st["mergeEligible"] else "0")
+
+
+def import_response(scn, done, taken, flow_ids, next_after):
+    """(proc, upd, rst, add, next, idx) of an import job that takes files `taken` when `done` are completed"""
+    old, new = {}, {}
+    for fi in done:
+        for p in scn["files"][fi]:
+            old.setdefault(p["flow"], []).append(p["t"])
+    for fi in taken:
+        for p in scn["files"][fi]:
+            new.setdefault(p["flow"], []).append(p["t"])
+    upd = rst = add = 0
+    for fl, ts in new.items():
+        sid = flow_ids.get(fl)
+        if sid is None:
+            return None
+        if fl not in old:
+            add |= 1 << sid
+        elif min(ts) < min(old[fl]):
+            rst |= 1 << sid
+        else:
+            upd |= 1 << sid
+    touched = upd | rst | add
+    return "bimport %d %d %d %d %d %s" % (len(taken), upd, rst, add, next_after, str(touched) if touched else "-")
+
+
+def model_cases(scn, lines, kfs, per_line):
+    """text for the model driver + list of line indexes; per_line[i] = (streams, done) computed by check_scenario"""
+    reg = Registry()
+    convs = sorted(scn["converters"])
+    out = ["K " + " ".join("1" if k in kfs else "0" for k in KF_IDS), "S %s %s" % (scn["name"], ",".join(str(i) for i in range(len(convs))))]
+    idxs = []
+    defs = scn["defs"]
+    tag_snap = None
+    imp_taken = None
+    prev_jobs = []
+    for li, ln in enumerate(lines):
+        st = ln.get("state")
+        if st is None or li not in per_line:
+            break
+        streams, done_before, done_after = per_line[li]
+        act, res = ln["act"], ln["res"]
+        exp = proj_from_dump(st, streams, reg, scn)
+        a = "nop"
+        k = act[0]
+
+        def spec_for(tn, defstr, ast):
+            t = st["tags"].get(tn)
+            mark = tn.startswith("mark/") or tn.startswith("generated/")
+            if t is not None and t["def"] == defstr:
+                return defspec(reg, defstr, t["mf"], t["sf"], t["mt"], t["st"], mark)
+            mf, sf, mt, stt = features(ast) if ast else (F_ID, 0, set(), set())
+            return defspec(reg, defstr, mf, sf, mt, stt, mark)
+        if k == "import":
+            a = "import " + (",".join(map(str, act[1])) or "-")
+        elif k == "addtag":
+            a = "addtag %d %s %d" % (rank(act[1]), spec_for(act[1], act[2], defs.get(act[2])), 0)
+        elif k == "addmark":
+            d = ln.get("info") or "id:-1"
+            ast = parse_mark_def(d)
+            a = "addtag %d %s %d" % (rank(act[1]), spec_for(act[1], d, ast), bits(ast[1]))
+        elif k == "deltag":
+            a = "deltag %d" % rank(act[1])
+        elif k == "query":
+            a = "query %d %s" % (rank(act[1]), spec_for(act[1], act[2], defs.get(act[2])))
+        elif k in ("markadd", "markdel"):
+            t = st["tags"].get(act[1])
+            did = reg.get(t["def"]) if t else 0
+            a = "%s %d %s %d" % (k, rank(act[1]), ",".join(map(str, act[2])) or "-", did)
+        elif k == "setconv":
+            a = "setconv %d %s" % (rank(act[1]), ",".join(str(convs.index(c)) for c in act[2] if c in convs) or "-")
+        elif k in ("step", "stepkind", "substep"):
+            if res == "import.start":
+                # ids of the flows and next id: from the first later dump in which this import is completed
+                resp = None
+                for lj in range(li + 1, len(lines)):
+                    if lj in per_line and set(imp_taken or []) <= set(per_line[lj][2]):
+                        s2 = per_line[lj][0]
+                        fl_ids = {}
+                        fl2 = Truth(scn)
+                        fl2.done = list(per_line[lj][2])
+                        for fl, o in fl2.flows().items():
+                            for sid, so in s2.items():
+                                if so is o or (so["cp"], so["sp"], so["ch"]) == (o["cp"], o["sp"], o["ch"]):
+                                    fl_ids[fl] = sid
+                        # the next id right after this import: ids of flows present once done+taken are imported
+                        t3 = Truth(scn)
+                        t3.done = list(done_before) + list(imp_taken or [])
+                        nxt = 1 + max([fl_ids[f] for f in t3.flows() if f in fl_ids] + [-1])
+                        resp = import_response(scn, done_before, imp_taken or [], fl_ids, nxt)
+                        break
+                a = resp or "bimport %d 0 0 0 %d -" % (len(imp_taken or []), st["next"])
+            elif res == "tag.start":
+                tab = []
+                if tag_snap is not None:
+                    sst, sstreams = tag_snap
+                    asts = {}
+                    for tn, t in sst["tags"].items():
+                        asts[tn] = parse_mark_def(t["def"]) if (tn.startswith("mark/") or tn.startswith("generated/")) else defs.get(t["def"])
+
+                    def val(tn):
+                        return set(sst["tags"][tn]["m"]) if tn in sst["tags"] else set()
+                    for tn, d in asts.items():
+                        if d is None:
+                            continue
+                        tab.append("%d=%d" % (rank(tn), bits(sid for sid in sstreams if eval_def(d, sid, sstreams, val))))
+                a = "btag " + (";".join(tab) or "-")
+            elif res == "convert.start":
+                a = "bconv"
+            elif res == "merge.start":
+                a = "bmerge"
+            elif res.endswith(".done"):
+                a = "complete " + res[:-5]
+        elif k == "settle":
+            a = "nop"
+        elif k == "viewopen":
+            a = "vopen %d" % act[1]
+        elif k == "viewdata":
+            if res == "ok" and act[3] in convs:
+                a = "vdata %d %d %d" % (act[1], convs.index(act[3]), act[2])
+        elif k == "viewclose":
+            a = "vclose %d" % act[1]
+        out.append("A %s || %s" % (exp, a))
+        idxs.append(li)
+        jobs = st["jobs"]
+        if "tag:0" in jobs and ("tag:0" not in prev_jobs or res == "tag.done"):
+            tag_snap = (st, streams)
+        if "import:0" in jobs and ("import:0" not in prev_jobs or res == "import.done"):
+            # the job took the whole queue when it was started by a completion, or the files of the first ImportPcaps call
+            if k == "import":
+                imp_taken = list(act[1])
+            else:
+                imp_taken = list(st["queue"])
+        prev_jobs = jobs
+    return out, idxs
+
+
+def run_model(exe, text, tag):
+    cf = os.path.join(RUNDIR, "model_%s.txt" % tag)
+    of = os.path.join(RUNDIR, "model_%s.out" % tag)
+    open(cf, "w").write("\n".join(text) + "\n")
+    rc, out, _ = run([exe, cf, of], timeout=600)
+    if rc != 0:
+        return None, "model driver rc=%d: %s" % (rc, out[-800:])
+    return [l.rstrip("\n") for l in open(of)], ""
 
 
 # ---------------------------------------------------------------------------- known findings
